@@ -263,7 +263,11 @@ Section WithFacts.
         end
     end.
 
-  Definition h_allowed (x : ctx) (st : vstate) (c : value) (field : key) (v : value) : res hout :=
+  (* a mapping (or a set) of allowed values is read as the list of its members: nothing is hashed *)
+  Definition allowed_members (c : value) : value :=
+    match c with VDict d => VList (map (fun kv => key_to_value (fst kv)) d) | _ => c end.
+
+  Definition h_allowed0 (x : ctx) (st : vstate) (c : value) (field : key) (v : value) : res hout :=
     if is_iterable v && negb (is_str v) then
       match py_iter v with
       | None => plain st
@@ -281,6 +285,9 @@ Section WithFacts.
       | Some false => do st' <- file_error x st field "UNALLOWED_VALUE" [v] []; plain st'
       end.
 
+  Definition h_allowed (x : ctx) (st : vstate) (c : value) (field : key) (v : value) : res hout :=
+    h_allowed0 x st (allowed_members c) field v.
+
   Fixpoint filter_in (l : list value) (c : value) : res (list value) :=
     match l with
     | [] => Ok []
@@ -295,9 +302,10 @@ Section WithFacts.
     match py_iter v with
     | None => plain st            (* if not isinstance(value, Iterable): return *)
     | Some present =>
+        (* the expected members are compared by equality (never hashed): duplicates count once *)
         let expected := if negb (is_iterable c) || is_str c
-                        then (if hashable c then Some [c] else None)
-                        else py_set c in
+                        then Some [c]
+                        else option_map dedup (py_iter c) in
         match expected with
         | Some ex =>
             match filter (fun e => negb (existsb (py_eq e) present)) ex with
@@ -619,7 +627,8 @@ Section WithFacts.
       | [] => Ok (valid, acc)
       | VDict def :: ds =>
           do def' <- inherit_rules x field def;
-          let cx := {| x_cfg := as_child (set_allow_unknown (x_cfg x) (VBool true)) (VDict (x_doc x));
+          (* allow_unknown=True, _is_normalized=False: normalization does not descend into the definitions *)
+          let cx := {| x_cfg := as_child (set_is_normalized (set_allow_unknown (x_cfg x) (VBool true)) false) (VDict (x_doc x));
                        x_schema := [(field, VDict def')]; x_doc := x_doc x;
                        x_dp := x_dp x; x_sp := x_sp x ++ [field; KStr op; KInt i];
                        x_update := upd x "validate_logical" |} in
